@@ -31,6 +31,9 @@ FORMULAS = [
     "y ~ a + A", "y ~ a | A", "log(a) + A",
     "0 + A + a", "0 + n + a", "n + b", "0 + n:A + b",
     "3:A:B", "0 + 3:A:B", "a + 2:A:B", "2.5:a:A:B", "0 + 2:A",
+    # contrasts with non-default options (each has its own dense and sparse code path)
+    "C(A, contr.diff(backward=False)) + a", "a + a:C(A, contr.diff(backward=False))", "C(A, contr.helmert(reverse=False, scale=True))",
+    "C(A, contr.poly(scores=[1, 2, 4])) + b", "C(A, contr.SAS('x')):a", "C(A, contr.custom([[1, 0], [0, 1], [-1, -1]]))",
 ]
 
 
@@ -163,9 +166,77 @@ def drv(c, ctx, col):
     col.sample(detail)
 
 
+# ---------------------------------------------------------------------------
+# specs obtained by ModelSpec.subset(): the same spec through every entry point that accepts a spec
+
+SUBSET_PARENTS = ["a + A + B:a", "A + a:A + b", "A + B + A:B", "0 + A + B + a", "a + C(A, contr.sum) + a:C(A, contr.sum)", "2.5:a + A:B + b"]
+SUBSET_ENTRIES = ["spec.get_model_matrix(data)", "spec.get_model_matrix(data, output=)", "model_matrix(spec, data, output=)", "Materializer(data).get_model_matrix(spec, output=)",
+                  "spec.update(output=).get_model_matrix(data)", "model_matrix(spec.update(output=), data)"]
+
+
+def drv_subset(c, ctx, col):
+    formula = c.pick(SUBSET_PARENTS)
+    fname = c.pick(ctx["frames"])
+    df = ctx["frame_objs"][fname]
+    parent_out = c.pick(["pandas", "numpy", "sparse"])
+    output = c.pick(["pandas", "numpy", "sparse"])
+    entry = c.pick(SUBSET_ENTRIES)
+    try:
+        parent = model_matrix(formula, df, output=parent_out)
+    except Exception as e:  # noqa
+        col.count("baseline-raised:" + type(e).__name__)
+        raise Skip()
+    pspec = parent.model_spec
+    terms = list(pspec.terms)
+    keep = c.subset(list(range(len(terms))))
+    if not keep or len(keep) == len(terms):
+        raise Skip()
+    key = "subset of %r keeping %s frame=%s parent_output=%s output=%s entry=%s" % (formula, [str(terms[i]) for i in keep], fname, parent_out, output, entry)
+    detail = {"formula": formula, "kept_terms": [str(terms[i]) for i in keep], "frame": fname, "parent_output": parent_out, "output": output, "entry": entry}
+    # reference: the parent's own columns for the kept terms (the numbers every entry point must reproduce)
+    P = dense(parent)
+    idx = [j for i in keep for j in pspec.term_indices[terms[i]]]
+    want, want_names = P[:, idx], [pspec.column_names[j] for j in idx]
+    try:
+        sub = pspec.subset([terms[i] for i in keep])
+        if entry == "spec.get_model_matrix(data)":
+            got, output = sub.get_model_matrix(df), parent_out
+        elif entry == "spec.get_model_matrix(data, output=)":
+            got = sub.get_model_matrix(df, output=output)
+        elif entry == "model_matrix(spec, data, output=)":
+            got = model_matrix(sub, df, output=output)
+        elif entry == "Materializer(data).get_model_matrix(spec, output=)":
+            got = PandasMaterializer(df).get_model_matrix(sub, output=output)
+        elif entry == "spec.update(output=).get_model_matrix(data)":
+            got = sub.update(output=output).get_model_matrix(df)
+        else:
+            got = model_matrix(sub.update(output=output), df)
+    except Exception as e:  # noqa
+        col.violation(key, dict(detail, error="%s: %s" % (type(e).__name__, str(e)[:300])), sig="subset-variant-raised:" + type(e).__name__)
+        return
+    col.interesting()
+    G = dense(got)
+    inner = getattr(got, "__wrapped__", got)
+    kind = "pandas" if isinstance(inner, pd.DataFrame) else "sparse" if hasattr(inner, "toarray") else "numpy" if isinstance(inner, np.ndarray) else type(inner).__name__
+    if kind != output:
+        col.violation(key, dict(detail, container=kind, requested=output), sig="subset:wrong-output-container")
+        return
+    names = list(got.model_spec.column_names)
+    if names != want_names:
+        col.violation(key, dict(detail, names=names, parent_names=want_names), sig="subset:column-names-differ")
+        return
+    if G.shape != want.shape or not np.allclose(G, want, rtol=1e-12, atol=1e-12, equal_nan=True):
+        col.violation(key, dict(detail, got=G.tolist(), parent_columns=want.tolist()), sig="subset:values-differ")
+        return
+    col.sample(detail)
+
+
 def subchecks(tier, seed):
     fr = frames()
     quick = tier == "quick"
     fs = FORMULAS
     return [Sub("variants", drv, {"formulas": fs, "frames": ["clean", "nulls", "categorical-dtype"] if quick else ["clean", "nulls", "nulls-shuffled-index", "categorical-dtype"], "frame_objs": fr}, shard_depth=3,
-                bounds={"formulas": fs, "frames": ["clean (6 rows)", "nulls (3 null cells)"], "variants_per_pair": 144})]
+                bounds={"formulas": fs, "frames": ["clean (6 rows)", "nulls (3 null cells)"], "variants_per_pair": 144}),
+            Sub("subset-spec-variants", drv_subset, {"frames": ["clean", "categorical-dtype"] if quick else ["clean", "nulls", "nulls-shuffled-index", "categorical-dtype"], "frame_objs": fr},
+                shard_depth=3, bounds={"parent_formulas": SUBSET_PARENTS, "kept_terms": "every non-empty proper subset of the parent's terms", "entries": SUBSET_ENTRIES,
+                                       "outputs": "3 (parent) x 3 (requested)"})]
